@@ -743,6 +743,15 @@ class Engine:
             return
         # pointer stored into a container's pointer array:  A->data[i] = B->data[j]
         if ls.get('kind') == 'ArraySubscriptExpr' and '*' in lt:
+            if rs.get('kind') == 'DeclRefExpr' and self.vname(rs['referencedDecl']) in st.raw and self.vname(rs['referencedDecl']) not in st.freed_raw:
+                # A->data[i] = buf;  with  buf = xmalloc(...)  earlier: the row is that allocation.  Its cells may be written through `buf`,
+                # which is not followed: the written-cell record of the row is marked unknown (never a refutation)
+                n_before = len(st.fresh)
+                self.alloc_store(e, ls, st.raw[self.vname(rs['referencedDecl'])], st, realloc=False)
+                for fk, v_ in st.fresh.items():
+                    if v_.get('where') == self.f.unit.where(e):
+                        v_['unknown'] = True
+                return
             self.deep_copy_rule(e, l, r, st)
             self.slot_store(ls, r, st)
             return
